@@ -367,8 +367,8 @@ func Search(seq Sequence, query Sequence) []Segment {
 		return nil
 	}
 
-	s := bytes.ToLower(seq.Bytes())
-	sep := bytes.ToLower(query.Bytes())
+	s := lowerASCII(seq.Bytes())
+	sep := lowerASCII(query.Bytes())
 
 	indices := bytesIndexAll(s, sep)
 	segments := make([]Segment, len(indices))
